@@ -54,11 +54,16 @@ def read(text):
     return shx
 
 
-def build_file(rng, fvs, atoms, z=4):
+Z_VALUES = ['4', '2', '1', '8', '1.5', '4.5', '3', '6', '12', '2.5']
+
+
+def build_file(rng, fvs, atoms, z=None):
+    if z is None:
+        z = rng.choice(Z_VALUES)
     """atoms: list of (elem_idx, sof_text, qpeak)."""
     n_el = len(ELEMS)
     unit = [str(rng.choice([4, 8, 12, 20, 36, 40, 6, 2])) for _ in range(n_el)]
-    lines = HEADER.format(sfac=' '.join(ELEMS), unit=' '.join(unit)).replace('ZERR 4', 'ZERR %d' % z)
+    lines = HEADER.format(sfac=' '.join(ELEMS), unit=' '.join(unit)).replace('ZERR 4', 'ZERR %s' % z)
     fl = []
     for i in range(0, len(fvs), 7):
         fl.append('FVAR ' + ' '.join(fvs[i:i + 7]))
@@ -73,7 +78,7 @@ def build_file(rng, fvs, atoms, z=4):
         else:
             body.append('%s%d %d %.4f %.4f %.4f %s 0.04' % (ELEMS[el], k, el + 1, x, y, zc, sof))
     text = lines + '\n'.join(fl) + '\n' + '\n'.join(body) + '\nHKLF 4\nEND\n' + '\n'.join(qp) + '\n'
-    return text, [Fraction(u) for u in unit]
+    return text, [Fraction(u) for u in unit], Fraction(z)
 
 
 def gen_cases(ctx):
@@ -123,7 +128,7 @@ def run(ctx):
     index = []   # per shard: list of (file_no, kind, atom_no)
     nontriv = set()
     for fno, (fvs, atoms, meta) in enumerate(files):
-        text, unit = build_file(ctx.rng, fvs, atoms)
+        text, unit, zgen = build_file(ctx.rng, fvs, atoms)
         shx = read(text)
         impl_atoms = list(shx.atoms)
         if len(impl_atoms) != len(atoms):
@@ -166,7 +171,7 @@ def run(ctx):
         # UNIT formula: "C2.5 H9 ..." -> numbers
         sf = shx.sum_formula
         nums = [Fraction(x.replace(',', '')) for x in re.findall(r'[A-Za-z]+([0-9.,e+-]+)', sf)]
-        z = Fraction(shx.Z)
+        z = zgen      # the Z written in the file, not the implementation's attribute
         defs += 'Definition unit_ok := forallb (fun xy => Qeqb_tol (Qabs (fst xy) * (1 # 10000)) (fst xy) (snd xy)) (combine (unit_formula %s %s) %s).\n' % (
             clist([cq(u) for u in unit]), cq(z), clist([cq(n) for n in nums]))
         unit_len_ok = len(nums) == len(unit)
@@ -215,7 +220,7 @@ def replay(ctx, rp):
     v = rp['violation']
     case = v['case']
     if case.get('kind') == 'occupancy':
-        text, _ = build_file(ctx.rng, case['fvars'], [(0, case['sof'], False)])
+        text, _, _ = build_file(ctx.rng, case['fvars'], [(0, case['sof'], False)])
         shx = read(text)
         a = shx.atoms.all_atoms[0]
         fvs = [Fraction(f) for f in case['fvars']]
